@@ -6,6 +6,7 @@
 //! construct outside its subset makes the item (and therefore its module) untranslated; the
 //! module is then listed with status "failed" and no .v file is written for it.
 mod expand;
+mod pins;
 mod expr;
 mod tables;
 mod types;
@@ -220,6 +221,11 @@ fn sig_of(module: &str, f: &syn::ItemFn) -> Result<FnSig, String> {
 
 fn main() {
   let args: Vec<String> = std::env::args().collect();
+  if args.len() == 3 && args[1] == "--pins" {
+    // print the pins of the tree (maintenance: refresh src/pins.txt after reviewing the hand models)
+    print!("{}", pins::render(&pins::current(Path::new(&args[2]))));
+    return;
+  }
   if args.len() == 3 && args[1] == "--vocab" {
     // print the current text of the vocabulary items (maintenance: refresh src/vocab_*.txt)
     let repo = Path::new(&args[2]);
@@ -423,7 +429,9 @@ fn main() {
     }
     meta.push_str("  ]}");
   }
-  meta.push_str("\n ]\n}\n");
+  meta.push_str("\n ],\n \"pins\": ");
+  meta.push_str(&pins::report_json(repo, &|x| json_str(x)));
+  meta.push_str("\n}\n");
   std::fs::write(out.join("meta.json"), meta).unwrap();
 
   // tables: impl rules, contiguous rows, checked validity predicates — from the macro-expanded crate
